@@ -96,6 +96,21 @@ def frameTargets (L : LogicData) (s : SState) (bi : Nat) (b : Branch) (h : Branc
   | .serial =>
       (h.unserial.filter fun w => h.lastSerial != some w).map fun w => .frame bi .serial w (nextWorld b) 0
 
+/-- `cpl.IdentityIndiscernability._get_node_targets`: identity node i × predication node j at the same world, substituting
+    one side of the identity for the other (`identAdd`, the calculus' own function), skipping self-identities and nodes that are
+    already on the branch (`branch.has` of the sentence AT THAT WORLD) -/
+def identTargets (L : LogicData) (bi : Nat) (b : Branch) (live : List Nat) : List Step :=
+  if !L.closesSelfIdNeg then [] else
+  live.flatMap fun (i : Nat) =>
+    (predIdx b).flatMap fun (j : Nat) =>
+      if j == i then [] else
+      match b.nodes[i]?, b.nodes[j]? with
+      | some ni, some np =>
+          match identAdd ni np with
+          | some nd => if LogicData.isSelfIdentity nd || b.hasNode nd then [] else [.ident bi i j]
+          | none => []
+      | _, _ => []
+
 def closeStep (bi : Nat) : CloseT → Step
   | .lits s w => .close bi s w
   | .ident n => .closeIdent bi n
@@ -109,12 +124,14 @@ def targets (L : LogicData) (s : SState) (r : RuleId) (bi : Nat) : List Step :=
     | .closure => (h.closeT.map (closeStep bi)).toList
     | .table k => tableTargets L s.maxWorlds s.maxConsts bi b h (s.live r bi) k
     | .frame fr => frameTargets L s bi b h (s.live r bi) fr
+    | .ident => identTargets L bi b (s.live r bi)
   | _, _ => []
 
 /-- the rules of logic L -/
 def ruleIds (L : LogicData) : List RuleId :=
   [.closure] ++ L.rules.map (fun kr => .table kr.1) ++
-    ([FrameRule.reflexive, .transitive, .symmetric, .serial].filter L.frameAllowed).map .frame
+    ([FrameRule.reflexive, .transitive, .symmetric, .serial].filter L.frameAllowed).map .frame ++
+    (if L.closesSelfIdNeg then [.ident] else [])
 
 /-- what the scheduler may take: any target of any rule on any open branch, except that the closure group comes
     first on a branch (`Tableau.logic` setter creates the group 'closure' before all others and `Tableau.next`
@@ -143,6 +160,7 @@ def releasable (L : LogicData) (mw mc : Nat) (b : Branch) (h : BranchH) (r : Rul
   | .frame .symmetric =>
       exceeded mw b || (match b.nodes[i]? with | some (Node.access a c) => h.windex.contains (c, a) | _ => false)
   | .frame .serial => false
+  | .ident => false
 
 /-- `FilterNodeCache.gc()` of rule r -/
 def SState.gc (s : SState) (r : RuleId) : SState :=
